@@ -9,7 +9,7 @@ Record pcase := { pc_cfgs : list wcfg; pc_ops : list (nat * cop) }.
 
 Definition p_cfg : P wcfg :=
   sv <- pBool ;; ub <- pN ;; po <- pBool ;; ng <- pBool ;;
-  ret {| w_server := sv; w_bufsize := eff_wbuf (if (0 <? ub) && (ub <? c_maxControlFramePayloadSize) then c_maxControlFramePayloadSize else ub);
+  ret {| w_server := sv; w_bufsize := eff_wbuf ub;
          w_pooled := po; w_negotiated := ng |}.
 Definition p_pcase : P pcase :=
   cs <- pList p_cfg ;; ops <- pList (pPair pNat p_cop) ;; ret {| pc_cfgs := cs; pc_ops := ops |}.
